@@ -4,7 +4,7 @@ CONSTANTS
   MaxPhrase = 0
   MaxTmpl = 4
   MaxDeep = 0
-  Hosts = {"tmpl_raw"}
+  Hosts = {"tmpl_raw", "tmpl_trim"}
   EmitAll = TRUE
 INVARIANTS Emit
 CHECK_DEADLOCK FALSE
